@@ -531,6 +531,9 @@ def call(pe, name, args, kwargs, node):
                shape_of(a, b))
     return pe.binop(ast.Mod(), a, b)
   if name in ("np.prod", "tf.reduce_prod", "K.prod", "math.prod"):
+    if name != "math.prod" and (is_num(args[0]) or isinstance(args[0],
+                                                               bool)):
+      return args[0]      # the product over a scalar is the scalar
     r = 1
     for v in pe.iterate(args[0]):
       r = pe.binop(ast.Mult(), r, v)
